@@ -154,6 +154,7 @@ Definition st_disk_write (s : st) (b : blk) (t : topic) (es : list entry) : st :
 (* ------------------------------------------------------------------ reader chain *)
 (* Reader::append_block_to_chain *)
 Definition chain_push (r : reader) (b : blk) : reader :=
+  if b_used b =? 0 then r else       (* a block sealed empty is retired, not chained *)
   let ch := r_chain r ++ [b] in
   if r_tail_bid r =? b_id b
   then {| r_chain := ch; r_idx := length ch - 1; r_off := N.min (r_tail_off r) (b_used b);
